@@ -36,7 +36,7 @@ CLAIMED = {
         note=CORR + "Time fields are projected away.", design="5/C03",
         technique="Coq proof (induction over segments) + extracted-model correspondence"),
     "C12": dict(
-        text="Theorem C12_isolation (axiom-free): a frame with the length and leader of a valid frame whose CRC does not match "
+        text="Theorem C12_transparent (axiom-free): a corrupted frame met at a frame boundary is delivered alone and leaves nothing behind in the handler's time state or the scanner: whatever bytes follow are reported in full, times and final state included, exactly as the rest of the stream on its own. Theorem C12_isolation (axiom-free): a frame with the length and leader of a valid frame whose CRC does not match "
              "(any alteration of payload/CRC, new 0xD3 bytes included) is delivered as one non-RTCM message with exactly its bytes "
              "and all other segments are delivered as without the corruption (same induction as C03 with a third segment kind). "
              "Correspondence: ~1700 streams per run with a victim at every position and bit/burst/byte/0xD3/CRC corruption.",
@@ -69,7 +69,7 @@ CLAIMED = {
              "specifications and classical reals of the standard library.", design="5/C08",
         technique="Coq proof (integer exactness by lia; Flocq relative error) + bit-exact float correspondence in the kernel VM"),
     "C06": dict(
-        text="Theorem C06_true_time (axiom-free), a corollary of C17_any_start: for every start time T and every admissible "
+        text="Theorem C06_stream (axiom-free): the same through the stream handler - the concatenated frames of an admissible history are cut into exactly those frames and every delivered message carries the true time and week start. Theorem C06_true_time (axiom-free), a corollary of C17_any_start: for every start time T and every admissible "
              "history (any interleaving of GPS/Galileo/GLONASS/BeiDou MSM4/MSM7 frames, non-decreasing whole-millisecond "
              "observation instants less than six days apart, illegal timestamps inserted anywhere) fed through the model's public "
              "GetMessage on frames built by the specification encoder, every reported UTC instant and start of week equals the "
@@ -162,7 +162,7 @@ CLAIMED = {
              "observed by the oracle only. Found and fixed: the recorder was not awaited at end of input (known_findings.txt).",
         design="5/C16", technique="Coq proof (invariant over all interleavings) + source fact + binary-level oracle"),
     "C17": dict(
-        text="Theorem C17_any_start (axiom-free): as C06 but the start time may lie anywhere in the constellation week of the first "
+        text="Theorem C17_stream (axiom-free): the same through the stream handler (HandleMessages) on the concatenated frames. Theorem C17_any_start (axiom-free): as C06 but the start time may lie anywhere in the constellation week of the first "
              "observation, before or after it. Correspondence as C06 with first observations at the week start, at its end and "
              "within 2 s of the start time.",
         note=CORR + "Same modelling of time as C06.", design="5/C17",
